@@ -47,6 +47,11 @@ TOL = 1e-8          # parameter stream and the oracle (norm-wise)
 # cond(C) <= 1e8 and 3e-10 at 1e9; histories are cut once cond(C) > 1e8.  A wrong coefficient changes
 # the result by 1e-2 or more.
 TOL_RUN = 1e-6
+# `Strategy.cond` is diagD[-1] / diagD[0] with diagD already the SQUARE ROOTS of the eigenvalues, i.e. sqrt(cond(C)): the
+# documented cut "cond(C) > 1e8" is cond > 1e4.  (The cut used to compare this square root with 1e8, so it never fired;
+# VERIF_SEED=4 produced a 44-generation history on a constant objective that reached sqrt(cond) = 2.4e7 and deviated by
+# 1e-5 from the Float model - a false alarm of the check on the unchanged tree, corrected here.)
+COND_CUT = 1e4
 RULE = ("fixed case list per (tier, seed): 7 structured + 40 (thorough 400) random multi-strategy programs (stream alias: dims 2..5, thorough 2..8; "
         "2..4 strategies, 6..12 steps out of update / update of two strategies with one population / caller write to centroid, cmatrix or "
         "keyword dictionary / restart from the same objects / lambda_ change + computeParams), then 42 structured + 1800 (thorough up to 6000, cut deterministically by a 1.5 GB protocol-volume cap) random histories, the parameter sweep "
@@ -628,6 +633,9 @@ def eval_run(d):
                     df, "shuffled" if kind == "shuffle" else "reversed"), g)
         if post["count"] != pre["count"] + 1:
             fail("update_count went from %d to %d" % (pre["count"], post["count"]), g)
+        if post["cond"] > COND_CUT or pre["cond"] > COND_CUT:
+            tags.append("stopped-illconditioned")
+            break
         stoks = state_tokens(pre)
         lines.append("C13 update %s %s %s %s %s %s" % (stoks, keys_tok, pop_tok, fv(w1), fm(V1),
                                                       ",".join(str(int(i)) for i in i1)))
@@ -641,7 +649,7 @@ def eval_run(d):
             e = check_consistency(st)
             if e:
                 fail(e, g)
-            if post["cond"] > 1e8 or post["sigma"] > 1e100 or post["sigma"] < 1e-100:
+            if post["cond"] > COND_CUT or post["sigma"] > 1e100 or post["sigma"] < 1e-100:
                 tags.append("stopped-illconditioned")
                 break
             if orc is not None:
@@ -673,7 +681,7 @@ def eval_run(d):
         e = check_consistency(st)
         if e:
             fail(e, g)
-        if post["cond"] > 1e8 or post["sigma"] > 1e100 or post["sigma"] < 1e-100:
+        if post["cond"] > COND_CUT or post["sigma"] > 1e100 or post["sigma"] < 1e-100:
             tags.append("stopped-illconditioned")
             break
         if orc is not None:
@@ -972,7 +980,7 @@ def eval_alias(d):
                 fail("%s changed the parameter %s" % (what, key))
         last[k] = post
         check_world(what, touched=(k,))
-        return not (post["cond"] > 1e8 or post["sigma"] > 1e100 or post["sigma"] < 1e-100)
+        return not (post["cond"] > COND_CUT or post["sigma"] > 1e100 or post["sigma"] < 1e-100)
 
     def recompute(k, newlam):
         """strategy.lambda_ = newlam; strategy.computeParams(the caller's keyword dictionary as it is NOW)"""
